@@ -41,7 +41,7 @@ func init() {
 				Rule: "cases 0-27 (role matrix): every request type of both APIs (etcd Txn create/update/delete, Range get/list/count/partitions, Watch from the next revision and from revision 0 (\"from now\"), range-stream watch, Lease; native Create/Update/Delete/Compact/Get/Range/Count/ListPartition/RangeStream/Watch) x {leader, follower} x {proxy on, off} x {leader reachable, unreachable, HTTP 400, HTTP 500, the recorded leader being a real node that is not leading (its real /status handler answers), a 200 answer cut off half-way through its body, a 200 answer whose body is not the revision document}, handlers built over a call-recording Backend, the REAL revision syncer pointed at an httptest leader, a stub election and a recording proxy. " +
 					"oracle: on a follower the backend never sees Create/Update/Delete/Compact/Watch (request rejected Unavailable or handed to the proxy), every backend read is preceded by SetCurrentRevision(v) with v served by the leader during this very request, a failed sync gives an error and no backend read; on the leader writes reach the backend and no sync happens. " +
 					"further cases (two nodes): a leader node and a follower node over one store with the real revision syncer over HTTP; writers on the leader, concurrent readers on the follower; in a third of them the verif hooks hold one reader between fetching and setting the revision while another sits between its own set and its backend read; in another third five readers holding different fetched revisions are released into the set at the same instant (150 rounds). oracle: the follower's response header >= the leader's committed revision sampled before the request began, and the data equals the reference snapshot at the header revision. " +
-					"every 8th further case is a PRODUCTION PAIR: two nodes as cmd/option.Run starts them (pkg/endpoint with multiplexed client and peer ports, server.NewServer, real Campaign, real revision syncer, real etcd proxy when etcd compatibility is on; peer port plain, TLS-only with client certificates, or both on one port) over one store, requests sent to the follower's client port over gRPC: native writes and watches refused, an etcd write either fails and changes nothing or is executed by the leader exactly once, every read the follower answers contains a write the leader acknowledged before, an etcd watch is refused or shows the leader's events. " +
+					"every 8th further case is a PRODUCTION PAIR: two nodes as cmd/option.Run starts them (pkg/endpoint with multiplexed client and peer ports, server.NewServer, real Campaign, real revision syncer, real etcd proxy when etcd compatibility is on; peer port plain, TLS-only with client certificates, or both on one port) over one store, requests sent to the follower's client port over gRPC: native writes and watches refused, an etcd write either fails and changes nothing or is executed by the leader exactly once, every read the follower answers contains a write that was readable on the leader before, an etcd watch is refused or shows the leader's events. " +
 					"non-trivial = matrix case with all request types exercised, or two-node case with >=20 follower reads overlapping leader writes; distinct by (role, proxy, leader mode) / (placement, read count)",
 				Assumptions: []string{"in the matrix the etcd proxy is a recording stub; the production-pair cases run the real one", "in the two-node cases the election is a stub; the status handler is the real one's logic re-served from the leader's backend"},
 				MinConcl:    c18Matrix + pick(tier, 24, 2500)}
